@@ -65,7 +65,9 @@ def _worker(args):
     data = "\n".join(json.dumps(o, separators=(",", ":")) for o in ops) + "\n"
     p = subprocess.run([common.DRIVER], input=data, stdout=subprocess.PIPE, stderr=subprocess.PIPE,
                        text=True, timeout=3000)
-    lines = p.stdout.splitlines()
+    lines = p.stdout.split("\n")
+    if lines and lines[-1] == "":
+      lines.pop()
     if p.returncode != 0 or len(lines) != len(ops):
       out.setdefault("infra", []).append("driver rc=%s answered %d/%d: %s" % (
         p.returncode, len(lines), len(ops), p.stderr[-300:]))
